@@ -151,12 +151,15 @@ func (enc *xmlWriter) Bitmask(bitmasktag, tag int, value int32) {
 type xmlReader struct {
 	r    *xml.Decoder
 	elem *xml.StartElement
+	// entered is set once the content of the current (structure) element has been consumed through
+	// Struct(), up to and including its end element.
+	entered bool
 }
 
 func newXMLReaderFromDecoder(r *xml.Decoder) (*xmlReader, error) {
 	dec := &xmlReader{
-		r,
-		nil,
+		r:    r,
+		elem: nil,
 	}
 	if err := dec.Next(); err != nil {
 		return nil, err
@@ -169,11 +172,15 @@ func newXMLReader(data []byte) (*xmlReader, error) {
 }
 
 func (dec *xmlReader) Next() error {
-	if ty := dec.Type(); ty != Type(0) && ty != TypeStructure {
+	// Skip the content of the current element up to its end, unless it is a structure whose content has
+	// already been consumed by Struct(). A structure that was never entered (an element the caller does not
+	// know) must be skipped as a whole: its children are not items of the enclosing structure.
+	if ty := dec.Type(); ty != Type(0) && (ty != TypeStructure || !dec.entered) {
 		if err := dec.r.Skip(); err != nil {
 			return err
 		}
 	}
+	dec.entered = false
 	for {
 		tok, err := dec.r.Token()
 		if err != nil {
@@ -349,7 +356,7 @@ func (dec *xmlReader) Struct(tag int, f func(reader) error) error {
 	if err := dec.assertType(TypeStructure, tag); err != nil {
 		return err
 	}
-	subDec := xmlReader{dec.r, nil}
+	subDec := xmlReader{r: dec.r, elem: nil}
 	if err := subDec.Next(); err != nil {
 		return err
 	}
@@ -361,6 +368,7 @@ func (dec *xmlReader) Struct(tag int, f func(reader) error) error {
 			return err
 		}
 	}
+	dec.entered = true
 	return dec.Next()
 }
 
